@@ -25,10 +25,9 @@ def check_c07(sess, st, res, cfg):
         for k, real in res['settings'].items():
             if k == 'after_pull_request' or not real or k in defaults0:
                 continue
-            opt = sess.registry.get(k)
-            if opt is None:
+            if k not in sess.registry:
                 continue
-            if opt.privileged and not any(
+            if k in R.PRIVILEGED and not any(
                     by in admins and by != author and k in text
                     for (by, text) in st['comments']):
                 return Violation(
@@ -37,7 +36,7 @@ def check_c07(sess, st, res, cfg):
                     'option %s is active although no comment of an admin '
                     'other than the author names it (admins %s, author %s, '
                     'comments %r)' % (k, admins, author, st['comments']), {})
-            if opt.authored and not any(
+            if k in R.AUTHORED and not any(
                     by == author and k in text
                     for (by, text) in st['comments']):
                 return Violation(
